@@ -17,6 +17,90 @@ use crate::{
 pub enum End {
     Front,
     Back,
+    /// `nth(k)` / `nth_back(k)`: iterator methods a type may override
+    Nth(u8),
+    NthBack(u8),
+}
+
+/// What the model does for one step.
+fn model_step<T>(m: &mut VecDeque<T>, e: End) -> Option<T> {
+    match e {
+        End::Front => m.pop_front(),
+        End::Back => m.pop_back(),
+        End::Nth(k) => {
+            for _ in 0..k {
+                m.pop_front()?;
+            }
+            m.pop_front()
+        }
+        End::NthBack(k) => {
+            for _ in 0..k {
+                m.pop_back()?;
+            }
+            m.pop_back()
+        }
+    }
+}
+
+fn real_step<I: DoubleEndedIterator>(it: &mut I, e: End) -> Option<I::Item> {
+    match e {
+        End::Front => it.next(),
+        End::Back => it.next_back(),
+        End::Nth(k) => it.nth(k as usize),
+        End::NthBack(k) => it.nth_back(k as usize),
+    }
+}
+
+/// Whole-iterator consumers and adaptors on fresh iterators (`make` creates one): last, count, fold,
+/// skip(k), step_by(k), rev().skip(k), nth(k) for k around the length - against the plain item list.
+fn adaptors_agree<I, T>(what: &str, exact: bool, make: impl Fn() -> I, items: &[T], conv: impl Fn(I::Item) -> T + Copy) -> Result<(), String>
+where
+    I: DoubleEndedIterator,
+    T: PartialEq + Clone + std::fmt::Debug,
+{
+    let n = items.len();
+    if make().count() != n {
+        return Err(format!("{what}.count() = {}, {n} items", make().count()));
+    }
+    if make().last().map(conv) != items.last().cloned() {
+        return Err(format!("{what}.last() differs from the last of {n} items"));
+    }
+    if make().fold(0usize, |a, _| a + 1) != n || make().rfold(0usize, |a, _| a + 1) != n {
+        return Err(format!("{what}.fold()/rfold() do not visit {n} items"));
+    }
+    for k in [0usize, 1, 2, n.saturating_sub(1), n, n + 1, n + 3] {
+        let got: Vec<T> = make().skip(k).take(n + 2).map(conv).collect();
+        let want: Vec<T> = items.iter().skip(k).cloned().collect();
+        if got != want {
+            return Err(format!("{what}.skip({k}) yields {got:?}, the items from {k} on are {want:?}"));
+        }
+        let got: Vec<T> = make().rev().skip(k).take(n + 2).map(conv).collect();
+        let want: Vec<T> = items.iter().rev().skip(k).cloned().collect();
+        if got != want {
+            return Err(format!("{what}.rev().skip({k}) yields {got:?}, expected {want:?}"));
+        }
+        if make().nth(k).map(conv) != items.get(k).cloned() {
+            return Err(format!("{what}.nth({k}) = {:?}, item {k} is {:?}", make().nth(k).map(conv), items.get(k)));
+        }
+        if make().nth_back(k).map(conv) != items.iter().rev().nth(k).cloned() {
+            return Err(format!("{what}.nth_back({k}) differs from item {k} from the back"));
+        }
+        if k >= 1 {
+            let got: Vec<T> = make().step_by(k).take(n + 2).map(conv).collect();
+            let want: Vec<T> = items.iter().step_by(k).cloned().collect();
+            if got != want {
+                return Err(format!("{what}.step_by({k}) yields {got:?}, expected {want:?}"));
+            }
+        }
+        let mut it = make();
+        let _ = it.nth(k);
+        let left = n.saturating_sub(k + 1);
+        let (lo, hi) = it.size_hint();
+        if (exact && (lo, hi) != (left, Some(left))) || lo > left || hi.is_some_and(|h| h < left) {
+            return Err(format!("{what}: after nth({k}) size_hint is {:?}, {left} items are left", (lo, hi)));
+        }
+    }
+    Ok(())
 }
 
 #[derive(Debug, Clone, Serialize, Deserialize)]
@@ -184,16 +268,9 @@ pub fn check_frame(case: &FrameCase) -> CaseResult {
                 let mut it = frame.fields();
                 let (mut f, mut b) = (false, false);
                 for (j, e) in ends.iter().enumerate() {
-                    let (got, want) = match e {
-                        End::Front => {
-                            f = true;
-                            (it.next(), model.pop_front())
-                        }
-                        End::Back => {
-                            b = true;
-                            (it.next_back(), model.pop_back())
-                        }
-                    };
+                    f |= matches!(e, End::Front | End::Nth(_));
+                    b |= matches!(e, End::Back | End::NthBack(_));
+                    let (got, want) = (real_step(&mut it, *e), model_step(&mut model, *e));
                     let want = want.map(|(k, v)| (k.as_str(), v.as_str()));
                     if got != want {
                         bail!("op {i} fields() step {j} {e:?} = {got:?}, model {want:?}");
@@ -213,6 +290,13 @@ pub fn check_frame(case: &FrameCase) -> CaseResult {
                 let want_rev: Vec<(&str, &str)> = want.iter().rev().copied().collect();
                 if got_rev != want_rev {
                     bail!("op {i} fields().rev() = {got_rev:?}, model {want_rev:?}");
+                }
+                if let Err(e) = adaptors_agree("fields()", false, || frame.fields(), &want, |x| x) {
+                    bail!("op {i} {e}");
+                }
+                let owned: Vec<(String, String)> = want.iter().map(|(k, v)| (k.to_string(), v.to_string())).collect();
+                if let Err(e) = adaptors_agree("frame.clone().into_iter()", false, || frame.clone().into_iter(), &owned, |(k, v)| (k.to_string(), v)) {
+                    bail!("op {i} {e}");
                 }
             }
             FOp::Clone => {
@@ -345,16 +429,9 @@ pub fn check_resp(case: &RespCase) -> CaseResult {
             if it.size_hint() != (len, Some(len)) || it.len() != len {
                 bail!("frames() before step {j}: size_hint {:?} / len {}, model {len}", it.size_hint(), it.len());
             }
-            let (got, want) = match e {
-                End::Front => {
-                    f = true;
-                    (it.next(), model.pop_front())
-                }
-                End::Back => {
-                    b = true;
-                    (it.next_back(), model.pop_back())
-                }
-            };
+            f |= matches!(e, End::Front | End::Nth(_));
+            b |= matches!(e, End::Back | End::NthBack(_));
+            let (got, want) = (real_step(&mut it, e), model_step(&mut model, e));
             let got = got.map(|x| match x {
                 Ok(fr) => It::F(obs_frame(fr)),
                 Err(er) => It::E(conv_err(er)),
@@ -393,6 +470,23 @@ pub fn check_resp(case: &RespCase) -> CaseResult {
         }
     }
 
+    // whole-iterator consumers and adaptors, borrowed and owned
+    {
+        let all: Vec<It> = items.iter().cloned().collect();
+        if let Err(e) = adaptors_agree("frames()", true, || resp.frames(), &all, |x| match x {
+            Ok(fr) => It::F(obs_frame(fr)),
+            Err(er) => It::E(conv_err(er)),
+        }) {
+            bail!("{e}");
+        }
+        if let Err(e) = adaptors_agree("response.clone().into_iter()", true, || resp.clone().into_iter(), &all, |x| match x {
+            Ok(fr) => It::F(obs_frame(&fr)),
+            Err(er) => It::E(conv_err(&er)),
+        }) {
+            bail!("{e}");
+        }
+    }
+
     // into_single_frame on a clone: the first item
     {
         let got = match resp.clone().into_single_frame() {
@@ -415,16 +509,9 @@ pub fn check_resp(case: &RespCase) -> CaseResult {
             if it.size_hint() != (len, Some(len)) || it.len() != len {
                 bail!("into_iter() before step {j}: size_hint {:?} / len {}, model {len}", it.size_hint(), it.len());
             }
-            let (got, want) = match e {
-                End::Front => {
-                    f = true;
-                    (it.next(), model.pop_front())
-                }
-                End::Back => {
-                    b = true;
-                    (it.next_back(), model.pop_back())
-                }
-            };
+            f |= matches!(e, End::Front | End::Nth(_));
+            b |= matches!(e, End::Back | End::NthBack(_));
+            let (got, want) = (real_step(&mut it, e), model_step(&mut model, e));
             let got = got.map(|x| match x {
                 Ok(fr) => It::F(obs_frame(&fr)),
                 Err(er) => It::E(conv_err(&er)),
@@ -474,7 +561,7 @@ fn big_dup_frame() -> impl Strategy<Value = AFrame> {
 }
 
 fn end() -> impl Strategy<Value = End> {
-    prop_oneof![Just(End::Front), Just(End::Back)]
+    prop_oneof![4 => Just(End::Front), 4 => Just(End::Back), 1 => (0..4u8).prop_map(End::Nth), 1 => (0..4u8).prop_map(End::NthBack)]
 }
 
 fn fop() -> impl Strategy<Value = FOp> {
